@@ -1,4 +1,5 @@
-import GeomV.C03.LemmasArea
+import GeomV.C03.LemmasCentroid
+import GeomV.C03.ProofsReal
 /-!
 # C03 — property theorems (exact part)
 
@@ -109,5 +110,160 @@ example : ValidPoly exPoly = true ∧ HolesFit exPoly = true ∧ PipAgrees (resp
     exSpell.length = exPoly.length := by decide +kernel
 example : polygonArea (respell exSpell exPoly) = 94 := by
   rw [C03_area exPoly exSpell (by decide) (by decide +kernel) (by decide +kernel)]; decide +kernel
+
+
+/-! ## Centroid -/
+
+/-- **Centroid clause (Polygon).** For every polygon whose rings have non-zero shoelace sum and whose
+signed areas do not cancel — closed or unclosed spelling, any start vertex — `Polygon.Centroid`
+returns (without fault, finite) the signed-area-weighted mean of the ring centroids. -/
+theorem C03_centroid (p : Poly) (h : ∀ r ∈ p, shoelace2 r ≠ 0)
+    (hW : (p.map fun r => shoelace2 r / 2).sum ≠ 0) :
+    polygonCentroid p = .ok (.fin (centroidSigned p).x, .fin (centroidSigned p).y) := by
+  unfold polygonCentroid
+  rw [polygonCentroidAcc_ok p h, wmean_signed p h]
+  simp only [Functor.map, Except.map, CAcc.zero, CAcc.finish, zero_add, fdiv, if_neg hW]
+  simp
+
+/-- **"unchanged by reversing all rings together or rotating ring start vertices"** (and by the
+closed/unclosed spelling): if every ring is spelled with the same direction flag, the centroid is
+that of the base polygon. -/
+theorem C03_centroid_invariant (p : Poly) (ss : List Spell) (hlen : ss.length = p.length)
+    (b : Bool) (hb : ∀ s ∈ ss, s.rev = b) (h : ∀ r ∈ p, shoelace2 r ≠ 0) :
+    centroidSigned (respell ss p) = centroidSigned p := by
+  have h' : ∀ r' ∈ respell ss p, shoelace2 r' ≠ 0 := by
+    intro r' hr'
+    obtain ⟨s, _, r, hr, e⟩ := mem_respell hr'
+    rw [e, shoelace2_ap]; have := h r hr
+    split <;> simpa using this
+  rw [wmean_signed _ h', wmean_signed _ h]
+  let σ : Rat := if b then -1 else 1
+  have hσ : σ ≠ 0 := by simp only [σ]; split <;> norm_num
+  have e1 := sum_map_respell (fun r => momX r / 6) σ ss p hlen
+    (by intro s hs r; simp only [momX_ap, hb s hs, σ]; ring)
+  have e2 := sum_map_respell (fun r => momY r / 6) σ ss p hlen
+    (by intro s hs r; simp only [momY_ap, hb s hs, σ]; ring)
+  have e3 := sum_map_respell (fun r => shoelace2 r / 2) σ ss p hlen
+    (by intro s hs r; simp only [shoelace2_ap, hb s hs, σ]; ring)
+  rw [e1, e2, e3, mul_div_mul_left _ _ hσ, mul_div_mul_left _ _ hσ]
+
+theorem sum_map_mul2 (τ : Rat) (F : Rat × Ring → Rat) (l : List (Rat × Ring)) :
+    (l.map fun x => τ * F x).sum = τ * (l.map F).sum := by
+  induction l with
+  | nil => simp
+  | cons a t ih => simp only [List.map_cons, List.sum_cons, ih]; ring
+
+/-- scaling all weights by a non-zero factor does not move the weighted mean -/
+theorem wmean_scale (τ : Rat) (hτ : τ ≠ 0) (l : List (Rat × Ring)) :
+    wmean (l.map fun x => (τ * x.1, x.2)) = wmean l := by
+  unfold wmean
+  simp only [sumR_eq_sum, List.map_map]
+  have a1 : (l.map ((fun x : Rat × Ring => x.1) ∘ fun x => (τ * x.1, x.2)))
+      = l.map fun x => τ * (fun y : Rat × Ring => y.1) x := by
+    apply List.map_congr_left; intro x _; rfl
+  have a2 : (l.map ((fun x : Rat × Ring => x.1 * (ringCentroid x.2).x) ∘ fun x => (τ * x.1, x.2)))
+      = l.map fun x => τ * (fun y : Rat × Ring => y.1 * (ringCentroid y.2).x) x := by
+    apply List.map_congr_left; intro x _; simp only [Function.comp]; ring
+  have a3 : (l.map ((fun x : Rat × Ring => x.1 * (ringCentroid x.2).y) ∘ fun x => (τ * x.1, x.2)))
+      = l.map fun x => τ * (fun y : Rat × Ring => y.1 * (ringCentroid y.2).y) x := by
+    apply List.map_congr_left; intro x _; simp only [Function.comp]; ring
+  rw [a1, a2, a3, sum_map_mul2, sum_map_mul2, sum_map_mul2, mul_div_mul_left _ _ hτ, mul_div_mul_left _ _ hτ]
+
+/-- **"is the area-weighted centroid".** When every hole is wound against the shell (the layout
+`Polygon.Centroid` documents), the signed-area-weighted mean is the centroid of the region:
+shells weigh `+measure`, holes `−measure`. -/
+theorem C03_centroid_true (p : Poly) (halt : Alternating p = true) (h : ∀ r ∈ p, shoelace2 r ≠ 0) :
+    centroidSigned p = Spec.centroid p := by
+  cases p with
+  | nil => rfl
+  | cons shell holes =>
+    have hs := h shell (by simp)
+    simp only [Alternating, List.all_eq_true, decide_eq_true_eq] at halt
+    let τ : Rat := if shoelace2 shell < 0 then -1 else 1
+    have hτ : τ ≠ 0 := by simp only [τ]; split <;> norm_num
+    have hw : weights (shell :: holes) = ((shell :: holes).map fun r => (shoelace2 r / 2, r)).map fun x => (τ * x.1, x.2) := by
+      simp only [weights, List.map_cons, List.map_map, Spec.measure, specAbsR_eq_abs]
+      congr 1
+      · congr 1
+        simp only [τ]; split
+        · rename_i hneg; rw [abs_of_neg hneg]; ring
+        · rename_i hpos; rw [abs_of_nonneg (not_lt.mp hpos)]; ring
+      · apply List.map_congr_left
+        intro g hg
+        have hg2 := halt g hg
+        simp only [Function.comp]
+        congr 1
+        simp only [τ]; split
+        · rename_i hneg
+          have : 0 < shoelace2 g := by nlinarith
+          rw [abs_of_pos this]; ring
+        · rename_i hpos
+          have hpos' : 0 < shoelace2 shell := lt_of_le_of_ne (not_lt.mp hpos) (Ne.symm hs)
+          have : shoelace2 g < 0 := by nlinarith
+          rw [abs_of_neg this]; ring
+    unfold Spec.centroid centroidSigned
+    rw [hw, wmean_scale τ hτ]
+
+
+/-! ## The second implementation (package `op`) -/
+
+theorem opRingArea_eq (r : Ring) : opRingArea r = shoelace2 r / 2 := by
+  unfold opRingArea
+  split
+  · rename_i h
+    have : r = [] := List.length_eq_zero_iff.mp h
+    subst this; rw [shoelace2_eq']; simp [cyc]
+  · rw [goCyc_eq_cyc, cyc_shoeF_eq_crossF, shoelace2_eq']
+
+theorem signedArea_eq_op (r : Ring) : signedArea r = opRingArea r := by
+  rw [opRingArea_eq]
+  unfold signedArea
+  split
+  · rename_i h
+    match r, h with
+    | [], _ => rw [shoelace2_eq']; simp [cyc]
+    | [a], _ => rw [shoelace2_eq']; simp [cyc, pairSum, crossF]; try ring
+  · rw [goCyc_eq_cyc, cyc_shoeF_eq_crossF, shoelace2_eq']
+
+/-- **op.Area** is the absolute value of the sum of the signed ring areas (so it needs the
+alternating winding its documentation asks for, unlike `Polygon.Area`). -/
+theorem op_agrees_area (p : Poly) : opPolygonArea p = |(p.map fun r => shoelace2 r / 2).sum| := by
+  unfold opPolygonArea
+  rw [absR_eq_abs]
+  congr 2
+  apply List.map_congr_left; intro r _; exact opRingArea_eq r
+
+/-- **op.Centroid = Polygon.Centroid on closed rings** (the statement's "Centroid of closed rings"):
+when no ring needs the closing vertex appended, the two loops compute the same thing, fault-free. -/
+theorem op_agrees_centroid (p : Poly) (hc : ∀ r ∈ p, closeIfOpen r = .ok r) :
+    polygonCentroid p = .ok (opCentroid p) := by
+  have key : ∀ (q : Poly) (s : CAcc), (∀ r ∈ q, closeIfOpen r = .ok r) →
+      polygonCentroidAcc q s = .ok (opCentroidAcc q s) := by
+    intro q
+    induction q with
+    | nil => intro s _; rfl
+    | cons r t ih =>
+      intro s h
+      unfold polygonCentroidAcc opCentroidAcc
+      rw [h r (by simp)]
+      simp only [bind, Except.bind]
+      rw [signedArea_eq_op]
+      exact ih _ (fun g hg => h g (by simp [hg]))
+  unfold polygonCentroid opCentroid
+  rw [key p _ hc]; rfl
+
+/-- On an unclosed ring `op.Centroid` drops the closing term (outside the statement, which speaks of
+closed rings): witness, the unclosed square (1,1)-(3,3). -/
+theorem op_centroid_unclosed_differs :
+    polygonCentroid [[⟨1,1⟩, ⟨3,1⟩, ⟨3,3⟩, ⟨1,3⟩]] = .ok (.fin 2, .fin 2) ∧
+    opCentroid [[⟨1,1⟩, ⟨3,1⟩, ⟨3,3⟩, ⟨1,3⟩]] ≠ (.fin 2, .fin 2) := by decide +kernel
+
+/-! ## MultiPolygon.Centroid: the defect that was fixed, on the model -/
+
+/-- The code before commit 3f4603d (`cx /= 6 * a` with the hole-signed absolute area) returns
+(−1,−1) for the closed clockwise 2×2 square; the fixed code returns (1,1). -/
+theorem C03_mcentroid_unfixed_wrong :
+    multiPolygonCentroidOld [[[⟨0,0⟩, ⟨0,2⟩, ⟨2,2⟩, ⟨2,0⟩, ⟨0,0⟩]]] = (.fin (-1), .fin (-1)) ∧
+    multiPolygonCentroid [[[⟨0,0⟩, ⟨0,2⟩, ⟨2,2⟩, ⟨2,0⟩, ⟨0,0⟩]]] = (.fin 1, .fin 1) := by decide +kernel
 
 end GeomV.C03
